@@ -117,6 +117,12 @@ fn gen_top(rng: &mut Rng, wordmask: u16, cap_px: u64, max_count: u64) -> TOp {
                 4 => 40,
                 _ => rng.range(0, 16),
             } as usize;
+            if !crate::small() && rng.chance(1, 400) {
+                // a whole frame pushed as parameters of one raw command (>= 2^16 bytes)
+                let n = *rng.pick(&[65_535usize, 65_536, 65_537, 70_000, 153_600]);
+                let seed = rng.next();
+                return TOp::Cmd { cmd: rng.next() as u8, params: (0..n).map(|i| (seed.wrapping_add(i as u64 * 31) >> 3) as u8).collect() };
+            }
             if rng.chance(1, 30) {
                 // a long run of identical parameter bytes (raw commands may carry whole lines)
                 let b = rng.next() as u8;
@@ -152,6 +158,87 @@ fn gen_top(rng: &mut Rng, wordmask: u16, cap_px: u64, max_count: u64) -> TOp {
     }
 }
 
+/// History-hostile call sequences: the same few pixel values come back in later calls, also as
+/// "aliases" (the same leading / trailing words with another pixel width), with growing and
+/// shrinking repeat counts, and sometimes with 255..257 (or 65535..65537 at thorough scale)
+/// small streamed bursts in between. A transport that remembers anything about an earlier call
+/// (what its staging buffer holds, how much of it) has to get all of these right.
+fn history_hostile(rng: &mut Rng, ops: &mut Vec<TOp>, wordmask: u16, max_n: usize, long_ok: bool) {
+    if !rng.chance(1, 3) {
+        return;
+    }
+    let base = gen_px(rng, 4, wordmask);
+    let alias = |rng: &mut Rng, n: usize| -> [u16; 4] {
+        let mut p = [0u16; 4];
+        match rng.below(4) {
+            // leading words, zero padded
+            0 => {
+                let k = rng.range(1, n as i64) as usize;
+                p[..k].copy_from_slice(&base[..k]);
+            }
+            // trailing words, zero padded in front
+            1 => {
+                let k = rng.range(1, n as i64) as usize;
+                for i in 0..k {
+                    p[n - k + i] = base[i];
+                }
+            }
+            _ => p[..n].copy_from_slice(&base[..n]),
+        }
+        p
+    };
+    for op in ops.iter_mut() {
+        match op {
+            TOp::Repeat { n, px, .. } if *n <= max_n && rng.chance(3, 4) => *px = alias(rng, *n),
+            TOp::Pixels { n, px } if *n <= max_n && !px.is_empty() && rng.chance(1, 3) => {
+                let a = alias(rng, *n);
+                for q in px.iter_mut() {
+                    *q = a;
+                }
+            }
+            _ => {}
+        }
+    }
+    if long_ok && rng.chance(1, 12) {
+        // two fills of the same pixel with exactly k streamed bursts in between
+        let n = rng.range(1, max_n.min(4) as i64) as usize;
+        let a = alias(rng, n);
+        let k = *rng.pick(&[255usize, 256, 257, 511, 512]);
+        let c1 = rng.range(1, 40) as u32;
+        let c2 = rng.range(1, 40) as u32;
+        ops.push(TOp::Repeat { n, px: a, count: c1 });
+        for i in 0..k {
+            let m = rng.range(1, max_n.min(4) as i64) as usize;
+            ops.push(TOp::Pixels { n: m, px: vec![gen_px(rng, m, wordmask); 1 + i % 2] });
+        }
+        ops.push(TOp::Repeat { n, px: a, count: c2 });
+    }
+}
+
+/// A pixel stream *ends* at its first `None`. Every other stream handed to `send_pixels` is not
+/// fused: polled again after its end it yields one more (poison) pixel, like `map_while` or
+/// `from_fn` over a longer source would. A transport that polls past the end sends words the
+/// expected byte stream does not contain.
+struct Resuming<I: Iterator> {
+    inner: I,
+    after_end: Option<I::Item>,
+    ended: bool,
+}
+impl<I: Iterator> Iterator for Resuming<I> {
+    type Item = I::Item;
+    fn next(&mut self) -> Option<I::Item> {
+        if self.ended {
+            return self.after_end.take();
+        }
+        let x = self.inner.next();
+        self.ended = x.is_none();
+        x
+    }
+}
+fn resuming<I: Iterator>(inner: I, len: usize, poison: I::Item) -> Resuming<I> {
+    Resuming { inner, after_end: if len % 2 == 1 { Some(poison) } else { None }, ended: false }
+}
+
 fn apply_u8<DI: Interface<Word = u8>>(di: &mut DI, op: &TOp) -> Result<(), DI::Error> {
     fn arr<const N: usize>(p: &[u16; 4]) -> [u8; N] {
         let mut a = [0u8; N];
@@ -163,10 +250,10 @@ fn apply_u8<DI: Interface<Word = u8>>(di: &mut DI, op: &TOp) -> Result<(), DI::E
     match op {
         TOp::Cmd { cmd, params } => di.send_command(*cmd, params),
         TOp::Pixels { n, px } => match n {
-            1 => di.send_pixels(px.iter().map(arr::<1>)),
-            2 => di.send_pixels(px.iter().map(arr::<2>)),
-            3 => di.send_pixels(px.iter().map(arr::<3>)),
-            _ => di.send_pixels(px.iter().map(arr::<4>)),
+            1 => di.send_pixels(resuming(px.iter().map(arr::<1>), px.len(), [0x5A; 1])),
+            2 => di.send_pixels(resuming(px.iter().map(arr::<2>), px.len(), [0x5A; 2])),
+            3 => di.send_pixels(resuming(px.iter().map(arr::<3>), px.len(), [0x5A; 3])),
+            _ => di.send_pixels(resuming(px.iter().map(arr::<4>), px.len(), [0x5A; 4])),
         },
         TOp::Repeat { n, px, count } => match n {
             1 => di.send_repeated_pixel(arr::<1>(px), *count),
@@ -185,10 +272,10 @@ fn apply_u16<DI: Interface<Word = u16>>(di: &mut DI, op: &TOp) -> Result<(), DI:
     match op {
         TOp::Cmd { cmd, params } => di.send_command(*cmd, params),
         TOp::Pixels { n, px } => match n {
-            1 => di.send_pixels(px.iter().map(arr::<1>)),
-            2 => di.send_pixels(px.iter().map(arr::<2>)),
-            3 => di.send_pixels(px.iter().map(arr::<3>)),
-            _ => di.send_pixels(px.iter().map(arr::<4>)),
+            1 => di.send_pixels(resuming(px.iter().map(arr::<1>), px.len(), [0x5A; 1])),
+            2 => di.send_pixels(resuming(px.iter().map(arr::<2>), px.len(), [0x5A; 2])),
+            3 => di.send_pixels(resuming(px.iter().map(arr::<3>), px.len(), [0x5A; 3])),
+            _ => di.send_pixels(resuming(px.iter().map(arr::<4>), px.len(), [0x5A; 4])),
         },
         TOp::Repeat { n, px, count } => match n {
             1 => di.send_repeated_pixel(arr::<1>(px), *count),
@@ -269,6 +356,7 @@ pub fn c06(args: &Args) -> Acc {
             }
             ops.push(op);
         }
+        history_hostile(&mut rng, &mut ops, 0xFF, buf_len.min(4), !crate::small() && buf_len > 0);
         let case = || J::obj().with("spi_buffer_len", buf_len).with("calls", ops.iter().map(|o| o.json()).collect::<Vec<_>>());
         let tl = Tl::new(8);
         // sentinel pattern in the staging buffer
@@ -349,6 +437,62 @@ pub fn c06(args: &Args) -> Acc {
         }
     });
     total.merge(acc);
+    // repeat counts up to u32::MAX with transfer buffers of hundreds of KiB, on a counting-only
+    // SPI device (bytes and transactions are counted, not stored)
+    if args.want_stage("huge") && args.scale >= 1.0 {
+        let mut a = Acc::new();
+        for (buf_len, count, n) in [(262_144usize, u32::MAX, 2usize), (300_000, u32::MAX - 1, 2), (262_144, u32::MAX, 3), (131_072, 1u32 << 31, 2), (393_216, u32::MAX - 70_000, 3)] {
+            if args.quick() && n == 3 && buf_len != 262_144 {
+                continue;
+            }
+            struct CountSpi<'a>(&'a std::cell::Cell<(u64, u64)>);
+            impl embedded_hal::spi::ErrorType for CountSpi<'_> {
+                type Error = Fault;
+            }
+            impl embedded_hal::spi::SpiDevice for CountSpi<'_> {
+                fn transaction(&mut self, operations: &mut [embedded_hal::spi::Operation<'_, u8>]) -> Result<(), Fault> {
+                    let (mut bytes, txns) = self.0.get();
+                    for op in operations.iter() {
+                        if let embedded_hal::spi::Operation::Write(b) = op {
+                            bytes += b.len() as u64;
+                        }
+                    }
+                    if txns > 40_000_000 {
+                        std::panic::panic_any(BudgetExceeded { ops: txns });
+                    }
+                    self.0.set((bytes, txns + 1));
+                    Ok(())
+                }
+            }
+            let cell = std::cell::Cell::new((0u64, 0u64));
+            let tl = Tl::new(8);
+            let mut buf = vec![0xA5u8; buf_len];
+            let mut di = SpiInterface::new(CountSpi(&cell), tl.pin(Src::Dc), &mut buf[..]);
+            let case = J::obj().with("spi_buffer_len", buf_len).with("N", n).with("count", count);
+            let r = guarded(|| match n {
+                2 => di.send_repeated_pixel([0x12u8, 0x34], count),
+                _ => di.send_repeated_pixel([0x12u8, 0x34, 0x56], count),
+            });
+            let (bytes, txns) = cell.get();
+            let want = count as u64 * n as u64;
+            let usable = (buf_len / n * n) as u64;
+            a.case(&format!("huge/{}/{}/{}", buf_len, count, n), true);
+            a.count("huge_repeat_bytes_counted", bytes);
+            match r {
+                Err(CallResult::Panic { msg, loc }) => a.violate("huge", n as u64, format!("send_repeated_pixel/panic@{}[count near 2^32]", loc), msg, case),
+                Err(_) => a.violate("huge", n as u64, "send_repeated_pixel/no-termination[count near 2^32]", "more than 4*10^7 transactions", case),
+                Ok(Err(e)) => a.violate("huge", n as u64, "send_repeated_pixel/spurious-error", format!("{:?}", e), case),
+                Ok(Ok(())) => {
+                    if bytes != want {
+                        a.violate("huge", n as u64, "send_repeated_pixel/byte-count[count near 2^32]", format!("{} bytes written for {} pixels of {} bytes (expected {})", bytes, count, n, want), case);
+                    } else if txns > want / usable + 1 {
+                        a.violate("huge", n as u64, "send_repeated_pixel/transactions[count near 2^32]", format!("{} transactions, bound {}", txns, want / usable + 1), case);
+                    }
+                }
+            }
+        }
+        total.merge(a);
+    }
     // sequences with an injected fault: the faulted call reports it, every later call delivers
     // exactly its bytes again (caches inside the interface must not survive a failed call)
     if args.want_stage("faults") {
@@ -477,6 +621,7 @@ pub fn c07(args: &Args) -> Acc {
             for _ in 0..nops {
                 ops.push(gen_top(&mut rng, mask, 50, max_count));
             }
+            history_hostile(&mut rng, &mut ops, mask, 4, !crate::small());
             // a pixel call before any command would sample an undriven DC line: start with a command
             ops.insert(0, TOp::Cmd { cmd: 0x2C, params: vec![] });
             let case = || J::obj().with("bus_bits", if wide { 16 } else { 8 }).with("calls", ops.iter().map(|o| o.json()).collect::<Vec<_>>());
@@ -961,6 +1106,130 @@ pub fn c05(args: &Args) -> Acc {
             if idx < 2 {
                 a.sample(cfg.to_json().with("colmod_announced", s.panel.colmod).with("samples", nsamp));
             }
+        });
+        total.merge(acc);
+    }
+    // (c) the colour on the wire must not depend on what was sent before: the same colour filled
+    // again (more / fewer pixels), with hundreds of single pixels of other colours in between,
+    // and across release() + a new Display with the other colour format whose wire bytes overlap
+    if args.want_stage("history") {
+        let mut list: Vec<(ModelId, Tr)> = Vec::new();
+        for m in BUILTIN {
+            for t in [Tr::Spi, Tr::P8, Tr::P16] {
+                if t.type_checks(m.bits()) && m.supports(t.kind()) {
+                    list.push((m, t));
+                }
+            }
+        }
+        let reps = if args.quick() { 40u64 } else { 2000 };
+        let acc = par_cases(list.len() as u64 * reps, args.threads, args.case, |idx, a| {
+            let (model, tr) = list[(idx / reps) as usize];
+            let mut rng = Rng::for_case(args.seed, "C05/history", &args.tier, idx);
+            let mut cfg = DispCfg::full(model, tr);
+            cfg.w = 24;
+            cfg.h = 24;
+            cfg.ori = Ori(rng.below(8) as u8);
+            // (at least one pixel of either colour format: the interface may be handed on)
+            cfg.spi_buf = crate::gen::spi_buf_len(&mut rng, model.bits()).min(600).max(3);
+            let bits = model.bits();
+            let mask = (1u32 << bits) - 1;
+            let c = rng.next() as u32 & mask;
+            let fill = |rng: &mut Rng, c: u32| {
+                let w = rng.range(1, 24) as u32;
+                let h = rng.range(1, 4) as u32;
+                Op::FillSolid { rect: crate::ops::Rect { x: rng.range(0, 24 - w as i64) as i32, y: rng.range(0, 24 - h as i64) as i32, w, h }, c }
+            };
+            let mut prog = vec![fill(&mut rng, c)];
+            let shape = rng.below(4);
+            match shape {
+                0 => {
+                    for _ in 0..rng.range(1, 4) {
+                        prog.push(fill(&mut rng, c));
+                    }
+                }
+                1 | 2 => {
+                    let k = *rng.pick(&[1usize, 2, 255, 256, 257, 511, 512]);
+                    for i in 0..k {
+                        let other = (c ^ (1 + rng.next() as u32 % mask)) & mask;
+                        prog.push(if shape == 1 || i % 3 > 0 {
+                            Op::SetPixel { x: rng.below(24) as u16, y: rng.below(24) as u16, c: other }
+                        } else {
+                            Op::FillContiguous { rect: crate::ops::Rect { x: rng.below(20) as i32, y: rng.below(24) as i32, w: 3, h: 1 }, colors: Stream::Seq { start: other, step: 1, len: Some(3) } }
+                        });
+                    }
+                    prog.push(fill(&mut rng, c));
+                }
+                _ => {}
+            }
+            let Opened::Ready(mut s) = Session::open(&cfg) else {
+                a.violate("history", idx, "init", "init failed", cfg.to_json());
+                return;
+            };
+            a.seen("history_shapes", ["same colour again", "single pixels in between", "pixels and short streams in between", "release and rebuild"][shape as usize]);
+            for (i, op) in prog.iter().enumerate() {
+                let rep = s.step(op);
+                if let Some(f) = rep.findings.first() {
+                    a.violate(
+                        "history",
+                        idx,
+                        format!("history/{}/{}/{}", op.name(), tr.name(), f.kind()),
+                        format!("call {} of {}: {}", i, prog.len(), f.describe()),
+                        cfg.to_json().with("program", crate::gen::prog_json(&prog)),
+                    );
+                    return;
+                }
+            }
+            a.count("history_calls_checked", prog.len() as u64);
+            if shape == 3 {
+                // the other colour format of the same controller family on the same interface
+                use ModelId::*;
+                let partner = match model {
+                    ILI9341Rgb565 => Some(ILI9341Rgb666),
+                    ILI9341Rgb666 => Some(ILI9341Rgb565),
+                    ILI9342CRgb565 => Some(ILI9342CRgb666),
+                    ILI9342CRgb666 => Some(ILI9342CRgb565),
+                    ILI9486Rgb565 => Some(ILI9486Rgb666),
+                    ILI9486Rgb666 => Some(ILI9486Rgb565),
+                    ILI9488Rgb565 => Some(ILI9488Rgb666),
+                    ILI9488Rgb666 => Some(ILI9488Rgb565),
+                    ST7789 => Some(Ext240x320c666),
+                    _ => None,
+                };
+                let Some(partner) = partner.filter(|m| tr.type_checks(m.bits()) && (!m.is_builtin() || m.supports(tr.kind()))) else {
+                    a.case(&format!("{}/{}/{}", model.name(), tr.name(), idx % reps), true);
+                    return;
+                };
+                // wire bytes [a, b] (16 bpp) and [0, a, b] / [a, b, 0] (18 bpp)
+                let a8 = (rng.next() as u32 & 0xFC).max(4);
+                let b8 = rng.next() as u32 & 0xFC;
+                let c565 = a8 << 8 | b8;
+                let c666 = if rng.bool() { (a8 >> 2) << 6 | (b8 >> 2) } else { (a8 >> 2) << 12 | (b8 >> 2) << 6 };
+                let tag = |bits: u8| if bits == 16 { c565 } else { c666 };
+                let first = fill(&mut rng, tag(bits));
+                let second = fill(&mut rng, tag(partner.bits()));
+                let rep = s.step(&first);
+                if rep.findings.first().is_some() {
+                    return; // judged above in the other shapes
+                }
+                let mut cfg2 = cfg.clone();
+                cfg2.model = partner;
+                let Opened::Ready(mut s2) = s.rebuild(&cfg2) else {
+                    return; // C17 judges re-initialisation
+                };
+                let rep = s2.step(&second);
+                a.count("history_rebuilds_with_overlapping_wire_bytes", 1);
+                if let Some(f) = rep.findings.first() {
+                    a.violate(
+                        "history",
+                        idx,
+                        format!("history/after-release/{}/{}/{}", second.name(), tr.name(), f.kind()),
+                        f.describe(),
+                        cfg.to_json().with("program", crate::gen::prog_json(&[first.clone()])).with("rebuilt_as", cfg2.to_json()).with("program_after_rebuild", crate::gen::prog_json(&[second.clone()])),
+                    );
+                    return;
+                }
+            }
+            a.case(&format!("{}/{}/{}", model.name(), tr.name(), idx % reps), true);
         });
         total.merge(acc);
     }
